@@ -27,9 +27,9 @@ def run(tier, seed):
     for j in jobs:
         res.absorb(j)
     res.rule = ("E1 rapidcheck over sequences of 1..6 objects drawn from the 14 exportable types (parameter objects, keys, samples, key-switching and bootstrapping keys, gate parameter sets, cloud and "
-                "secret key sets) with generated dimensions (n up to 700, N in 1..16 and {32,64,100,1024}, k<=3, gadget and key-switch layouts), contents (random / all-MAX / all-MIN / alternating / zero / all -1), "
+                "secret key sets) with generated dimensions (n up to 700 and 2040..2600, N in 1..16, {32,64,100,1024} and {2047,2048,2049,4096}: single coefficient arrays on both sides of the 8 KB stdio buffer size, k<=3, gadget and key-switch layouts), contents (random / all-MAX / all-MIN / alternating / zero / all -1), "
                 "per-row variances, and real-valued parameters that are either the defaults' values (2^-15, 2^-25, 7.18e-9, 2.44e-5, 0.012467, 0.1, 0.3, 0.5, 1e-12) or full-precision doubles 2^-e*(1+m) down to 1e-12; "
-                "all objects written back-to-back into ONE stream with transport in {FILE, C++ stream} and read back with either transport. Oracle: field-for-field equality with doubles compared by ==, "
+                "all objects written back-to-back into ONE stream with transport in {FILE (memory stream or a real file), C++ stream} and read back with either transport (in memory or from a real file). Oracle: field-for-field equality with doubles compared by ==, "
                 "key-row variances equal to the common maximum, importer position == end of the object, FILE and stream exports identical, re-export of the imported object byte-identical; cloud key: the same "
                 "gate sequence on the same ciphertexts gives byte-identical outputs; secret key: identical decryptions and identical fresh encryptions after reseeding. Plus both default parameter sets and a "
                 "default-size key set per set. Non-trivial = a sequence of >= 2 objects, or an object with a real parameter not representable in 8 decimals; distinct by case hash.")
